@@ -172,6 +172,53 @@ class Driver:
             con.close()
         self.setup_log = []
 
+    def run_batch(self, items, version=(1, 2), user='alice', option=None):
+        """One request with several batch items -> [observation per answered item] (same shape as `run`)."""
+        self.cap.reset()
+        self.crypto_calls = []
+        eng = self.eng.engine
+        orig = eng._process_operation
+
+        def marked(operation, payload):
+            self.crypto_calls.append(('ITEM', None))
+            return orig(operation, payload)
+        eng._process_operation = marked
+        try:
+            r = self.eng.request(list(items), version=version, user=user, batch_option=option)
+        finally:
+            del eng._process_operation
+        if r['error'] is not None:
+            return [{'status': 'REQUEST_ERROR', 'reason': r['error']['reason'], 'crash': None, 'crypto': [], 'warned': self.cap.warnings,
+                     'message': r['error']['message'], 'encode': None}]
+        enc = None
+        try:
+            from kmip.core import utils as _utils
+            kv = getattr(enums.KMIPVersion, 'KMIP_%d_%d' % tuple(version))
+            r['raw'].write(_utils.BytearrayStream(), kmip_version=kv)
+        except Exception as e:
+            fr = [f for f in traceback.extract_tb(e.__traceback__) if '/kmip/' in f.filename.replace('\\', '/') and '/site-packages/' not in f.filename]
+            enc = {'site': ('%s:%s' % (fr[-1].filename.replace('\\', '/').split('/kmip/', 1)[1], fr[-1].name)) if fr else None,
+                   'exc': type(e).__name__, 'msg': str(e)[:160], 'detail': exc_detail(e)}
+        per_item, cur = [], None
+        for c in self.crypto_calls:
+            if c[0] == 'ITEM':
+                cur = []
+                per_item.append(cur)
+            elif cur is not None:
+                cur.append(c)
+        sites = list(self.cap.sites)
+        out = []
+        for k, it in enumerate(r['items']):
+            crash = None
+            if it['reason'] == 'GENERAL_FAILURE':
+                crash = dict(sites.pop(0)) if sites else {'site': None, 'exc': None}
+            out.append({'status': it['status'], 'reason': it['reason'], 'crash': crash, 'crypto': per_item[k] if k < len(per_item) else [],
+                        'warned': 1 if it['reason'] == 'GENERAL_FAILURE' else 0, 'message': it['message'], 'payload': it['payload'],
+                        'encode': enc if k == len(r['items']) - 1 else None})
+        if self.cap.warnings != sum(1 for o in out if o['reason'] == 'GENERAL_FAILURE'):
+            out[-1]['warned'] = -1      # the WARNING count and the GENERAL_FAILURE count of the batch disagree
+        return out
+
     def run(self, item, version=(1, 2), user='alice'):
         """-> observation dict {status, reason, crash: None | {site, exc}, crypto: [(fn, outcome)], warned}"""
         self.cap.reset()
@@ -1179,9 +1226,14 @@ class Grid:
         return HEADER + ''.join('Definition %s : store := %s.\n' % (n, t) for t, n in self.stores.items())
 
     def cell(self, drv, req, ver, store_obs, user='alice', desc=None, history=None):
-        ctx = self.ctx
         store_obs = with_access(drv, store_obs, user, req['op'])
         obs = drv.run(mk_item(req), ver, user)
+        return self.record(req, ver, store_obs, obs, user, desc, history)
+
+    def record(self, req, ver, store_obs, obs, user='alice', desc=None, history=None, coq_req=None, batch=None):
+        """Direct oracle + correspondence case for one executed item.  `coq_req` is the request as the model sees it when it
+        differs from what was sent (a batch item without identifier: the placeholder it resolves to is filled in)."""
+        ctx = self.ctx
         self.cells += 1
         op = OP_NAMES[req['op']]
         crashed = obs['reason'] == 'GENERAL_FAILURE'
@@ -1189,7 +1241,7 @@ class Grid:
         ctx.count('version.%d.%d' % ver)
         if desc:
             ctx.count('target.%s' % desc)
-        witness = {'version': list(ver), 'user': user, 'request': jsonable(req), 'store': store_obs, 'history': history,
+        witness = {'version': list(ver), 'user': user, 'request': jsonable(req), 'store': store_obs, 'history': history, 'batch': batch,
                    'observed': {'status': obs['status'], 'reason': obs['reason'], 'crash': obs['crash'], 'crypto': obs['crypto'],
                                 'encode': obs.get('encode')}}
         # ---- direct oracle: the property itself, no model involved
@@ -1212,7 +1264,7 @@ class Grid:
                            'stage': 'encode-response'}, witness,
                           '%s: the response cannot be encoded (%s:%s %s); the session answers GENERAL_FAILURE' % (op, e['site'], e['exc'], e['msg']))
         # ---- correspondence case
-        it = coq_item(req)
+        it = coq_item(coq_req if coq_req is not None else req)
         if it is None:
             ctx.count('unmodelled')
             return obs
@@ -1486,6 +1538,101 @@ def run_histories(grid, ctx, rng, n_random):
             drv.close()
 
 
+def batch_creators(base_uid):
+    """(name, creating request, expected to succeed?) - shapes of the four creating operations that actually succeed, one per
+    stored class, plus one that fails (the placeholder then stays unset)."""
+    A, L, M = 'Cryptographic Algorithm', 'Cryptographic Length', 'Cryptographic Usage Mask'
+    hp = {'hashing_algorithm': HASH.SHA_256}
+    out = [('Create', {'op': 'Create', 'otype': 'SYMMETRIC_KEY', 'ta': tmpl(A, L, {'name': M, 'val': ALL_MASK}, 'Name')}),
+           ('CreateKeyPair', {'op': 'CreateKeyPair', 'common': tmpl({'name': A, 'val': ALG.RSA}, {'name': L, 'val': 1024}),
+                              'private': tmpl({'name': M, 'val': ALL_MASK}), 'public': tmpl({'name': M, 'val': ALL_MASK})}),
+           ('DeriveKey.key', {'op': 'DeriveKey', 'otype': 'SYMMETRIC_KEY', 'uids': [base_uid], 'method': 'HASH', 'dp': {'params': hp}, 'ta': DERIVE_TA}),
+           ('DeriveKey.secret', {'op': 'DeriveKey', 'otype': 'SECRET_DATA', 'uids': [base_uid], 'method': 'PBKDF2',
+                                 'dp': {'params': hp, 'salt': b'salt', 'iterations': 2}, 'ta': tmpl(L, M)}),
+           ('Create.fails', {'op': 'Create', 'otype': 'SYMMETRIC_KEY', 'ta': tmpl(A, L)})]
+    for t in TYPE_NAMES:
+        ta = tmpl('Name') if t == 'OPAQUE_DATA' else tmpl({'name': M, 'val': ALL_MASK}, 'Name')
+        out.append(('Register.' + t, {'op': 'Register', 'otype': t, 'secret': {'type': t}, 'ta': ta}))
+    return out
+
+
+def batch_followers(ver):
+    """Operations that take their target from the ID placeholder when the Unique Identifier is left out."""
+    out = [{'op': 'Get'}, {'op': 'Activate'}, {'op': 'Get', 'kft': 'RAW'}, {'op': 'GetAttributes', 'names': None},
+           {'op': 'GetAttributes', 'names': ['Name', 'State']}, {'op': 'GetAttributeList'},
+           {'op': 'Revoke', 'code': 'KEY_COMPROMISE'}, {'op': 'Revoke', 'code': 'CESSATION_OF_OPERATION'}, {'op': 'Destroy'}]
+    if ver >= (1, 2):
+        out += [{'op': 'Encrypt', 'params': SYM_PARAMS[2], 'iv': None, 'data': b'abc'}, {'op': 'Decrypt', 'params': SYM_PARAMS[2], 'iv': b'\x01' * 16, 'data': b'\x07' * 16},
+                {'op': 'Sign', 'params': SIGN_PARAMS[2], 'data': b'msg'}, {'op': 'SignatureVerify', 'params': SIGN_PARAMS[2], 'data': b'msg', 'signature': b'\x01' * 128},
+                {'op': 'MAC', 'params': {'cryptographic_algorithm': ALG.HMAC_SHA256}, 'data': b'data'}]
+    if ver < (2, 0):
+        out += [{'op': 'ModifyAttribute1', 'attr': {'name': 'Name', 'index': 0, 'val': kdrv.name_value('renamed')}},
+                {'op': 'ModifyAttribute1', 'attr': {'name': 'x-custom', 'index': None}},
+                {'op': 'DeleteAttribute1', 'name': 'Name', 'index': 0}, {'op': 'DeleteAttribute1', 'name': 'State', 'index': None}]
+    else:
+        out += [{'op': 'SetAttribute', 'attr': {'name': 'Sensitive'}}, {'op': 'ModifyAttribute2', 'attr': {'name': 'Sensitive', 'val': False}, 'current': None},
+                {'op': 'DeleteAttribute2', 'current': None, 'ref': 'Name'}, {'op': 'DeleteAttribute2', 'current': {'name': 'Name'}, 'ref': None}]
+    return out
+
+
+def run_batches(grid, ctx, ver, rng, sample):
+    """The batch dimension: one request = [creating operation, operation without Unique Identifier (, a third one)].  The
+    creating request is first sent alone (objects N1), then inside the batch (objects N2, same summaries, new identifiers);
+    the model sees item 2 with the placeholder filled in over the store 'before the batch + N2'."""
+    drv = Driver(ctx)
+    try:
+        followers = batch_followers(ver)
+        for cname, creq in batch_creators(0):
+            fs = followers if sample is None else ([followers[0], followers[1]] + rng.sample(followers[2:], min(sample, len(followers) - 2)))
+            for k, f in enumerate(fs):
+                option = [None, enums.BatchErrorContinuationOption.CONTINUE, enums.BatchErrorContinuationOption.STOP][(k + len(cname)) % 3]
+                drv.reset()
+                base = add_object(drv, obj_spec('SYMMETRIC_KEY', 'Active', 'all'), 1)
+                creq = dict(dict(batch_creators(int(base)))[cname])
+                s0 = observe_store(drv)
+                solo = grid.cell(drv, creq, ver, s0, desc='batch.solo')
+                s1 = observe_store(drv)
+                n1 = sorted(o['uid'] for o in s1 if o['uid'] not in {x['uid'] for x in s0})
+                third = {'op': 'Encrypt', 'params': SYM_PARAMS[2], 'iv': None, 'data': b'abc'} if (f['op'] == 'Activate' and ver >= (1, 2)) else None
+                reqs = [creq, dict(f)] + ([third] if third else [])
+                obs = drv.run_batch([mk_item(r) for r in reqs], ver, 'alice', option)
+                ctx.count('batch.%s.%s.%s' % (cname, f['op'], option.name if option else 'default'))
+                wb = {'items': [jsonable(r) for r in reqs], 'option': option.name if option else None}
+                if obs[0]['status'] == 'REQUEST_ERROR':
+                    ctx.disagreement('grid', {'batch': wb, 'error': obs[0]}, impl_says='request-level error for a well-formed batch')
+                    continue
+                # item 1
+                grid.record(creq, ver, with_access(drv, s1, 'alice', creq['op']), obs[0], desc='batch.item1', batch=wb)
+                placeholder, s2 = None, s1
+                if obs[0]['status'] == 'SUCCESS':
+                    p = obs[0]['payload'] or {}
+                    new = sorted(int(str(p[key])) for key in ('unique_identifier', 'public_key_unique_identifier', 'private_key_unique_identifier')
+                                 if p.get(key) is not None)
+                    placeholder = int(str(p.get('private_key_unique_identifier') or p.get('unique_identifier')))
+                    if len(new) != len(n1):
+                        ctx.disagreement('grid', {'batch': wb}, impl_says='the creating item made %d objects, alone it made %d' % (len(new), len(n1)))
+                        continue
+                    by_uid = {o['uid']: o for o in s1}
+                    s2 = s1 + [dict(by_uid[a], uid=b) for a, b in zip(n1, new)]
+                # item 2 (not answered when item 1 failed under Stop)
+                if len(obs) > 1:
+                    creq2 = dict(f, uid=placeholder)
+                    grid.record(dict(f), ver, with_access(drv, s2, 'alice', f['op']), obs[1], desc='batch.item2', coq_req=creq2, batch=wb)
+                    if third and len(obs) > 2 and obs[1]['status'] == 'SUCCESS':
+                        s3 = [dict(o, state=2) if o['uid'] == placeholder else o for o in s2]
+                        grid.record(dict(third), ver, with_access(drv, s3, 'alice', 'Encrypt'), obs[2], desc='batch.item3',
+                                    coq_req=dict(third, uid=placeholder), batch=wb)
+                    elif f['op'] not in MUTATING or obs[1]['status'] != 'SUCCESS':
+                        after = observe_store(drv)
+                        if [(o['uid'], o['cls'], o['state']) for o in after] != [(o['uid'], o['cls'], o['state']) for o in s2]:
+                            ctx.disagreement('grid', {'batch': wb, 'expected_store': s2, 'observed_store': after},
+                                             impl_says='the store after the batch is not the one the batch model assumed')
+                elif not (obs[0]['status'] != 'SUCCESS' and option != enums.BatchErrorContinuationOption.CONTINUE):
+                    ctx.disagreement('grid', {'batch': wb}, impl_says='item 2 was not answered although item 1 succeeded or the option is Continue')
+    finally:
+        drv.close()
+
+
 def run_random(grid, ctx, rng, rounds, per_round):
     """Seeded random well-typed requests over random stores (two identities)."""
     for k in range(rounds):
@@ -1618,6 +1765,10 @@ def run(ctx):
         run_aux(grid, ctx, ver, rng, (1, 4) if quick else None)
         run_global(grid, ctx, ver, rng, (1, 10) if quick else None)
         ctx.log('version %d.%d done: %d cells, %d distinct cases, %d GENERAL_FAILURE' % (ver[0], ver[1], grid.cells, len(grid.cases), grid.crashes))
+    brng = ctx.subrng('batches')
+    for ver in (sorted(brng.sample(kdrv.VERSIONS, 3)) if quick else kdrv.VERSIONS):
+        run_batches(grid, ctx, ver, brng, 2 if quick else None)
+    ctx.log('batches done: %d cells' % grid.cells)
     sweep_versions = [ctx.subrng('sweep').choice([(1, 2), (1, 3), (1, 4), (2, 0)])] if quick else [(1, 0), (1, 2), (1, 3), (1, 4), (2, 0)]
     for ver in sweep_versions:
         run_sweep(grid, ctx, ver)
@@ -1720,6 +1871,24 @@ def replay(ctx, data):
             for part in ('eki', 'mski'):
                 if req['wrap'].get(part):
                     req['wrap'][part]['uid'] = remap(req['wrap'][part]['uid'])
+        if w.get('batch'):
+            b = w['batch']
+            reqs = [_unjson(x) for x in b['items']]
+            for r in reqs:
+                if 'uids' in r:
+                    r['uids'] = [remap(u) for u in r['uids']]
+            opt = enums.BatchErrorContinuationOption[b['option']] if b.get('option') else None
+            outs = drv.run_batch([mk_item(r) for r in reqs], ver, user, opt)
+            bad = 0
+            for r, o in zip(reqs, outs):
+                st = observed_site(o)
+                print('  batch item %s: status=%s reason=%s site=%s' % (r['op'], o['status'], o['reason'], st))
+                bad += st is not None
+            if bad:
+                print('VIOLATION property=C13 replay reproduces: a batch item reached the internal-error path')
+                return 1
+            print('replay does not reproduce: no internal error')
+            return 0
         obs = drv.run(mk_item(req), ver, user)
         site = observed_site(obs)
         print('replayed %s under KMIP %d.%d as %s: status=%s reason=%s site=%s crypto=%s' % (
